@@ -91,16 +91,10 @@ theorem get_date_civil (j : ℚ) (hj : 0 ≤ j) :
   rw [jdnI_civilDay] at this
   exact this
 
-/-- `_compute_jde` at an integer day plus a day fraction. -/
-theorem compute_jde_frac (y m d : Int) (f : ℚ) (h0 : 0 ≤ f) (h1 : f < 1) :
-    compute_jde y m ((d : ℚ) + f) = (jdnI y m d : ℚ) - 1 / 2 + f := by
-  have hfl : pfloor ((d : ℚ) + f) = d := pfloor_add_fract d f h0 h1
-  unfold compute_jde jdnI
-  by_cases hm : m ≤ 2
-  · simp only [hm, if_true, hfl, is_julian_int, floor_y100, floor_a4, floor_36525, floor_306001]
-    cases isJulianI (y - 1) (m + 12) d <;> norm_num [ofInt] <;> ring
-  · simp only [hm, if_false, hfl, is_julian_int, floor_y100, floor_a4, floor_36525, floor_306001]
-    cases isJulianI y m d <;> norm_num [ofInt] <;> ring
+/-- `_compute_jde` at an integer day of the civil calendar plus a day fraction. -/
+theorem compute_jde_frac (y m d : Int) (f : ℚ) (h0 : 0 ≤ f) (h1 : f < 1) (hv : Valid y m d) :
+    compute_jde y m ((d : ℚ) + f) = (jdnI y m d : ℚ) - 1 / 2 + f :=
+  compute_jde_frac_valid y m d f hv h0 h1
 
 /-! Splitting of a day fraction `f ∈ [0, 1)` into hours, minutes, seconds as `get_full_date` does. -/
 def hourOf (f : ℚ) : Int := ⌊f * 24⌋
@@ -205,12 +199,12 @@ theorem dayFrac_mono_of_dayNo_eq (j1 j2 : ℚ) (h0 : 0 ≤ j1) (h : j1 ≤ j2) (
 
 /-! The constructor. -/
 
-theorem set_fold_eq (y m d : Int) (h mi s : ℚ)
+theorem set_fold_eq (y m d : Int) (h mi s : ℚ) (hv : Valid y m d)
     (f0 : 0 ≤ h / 24 + mi / 1440 + s / 86400) (f1 : h / 24 + mi / 1440 + s / 86400 < 1) :
     set_fold (y, m, (d : ℚ), h, mi, s) = { jde := (jdnI y m d : ℚ) - 1 / 2 + (h / 24 + mi / 1440 + s / 86400) } := by
   unfold set_fold compute_jde_tt
   have e : h / 24.0 + mi / 1440.0 + s / 86400.0 = h / 24 + mi / 1440 + s / 86400 := by norm_num
-  simp only [e, compute_jde_frac y m d _ f0 f1]
+  simp only [e, compute_jde_frac y m d _ f0 f1 hv]
   congr 1
   norm_num
 
